@@ -618,6 +618,9 @@ class Simulation:
             if key not in ("debug", "trace", "tracer"):
                 new_dict[key] = value
 
+        # The clone purges its own cache entries only.
+        new.invalidated_caches = set()
+
         new.persons = self.persons.clone(new)
         setattr(new, new.persons.entity.key, new.persons)
         new.populations = {new.persons.entity.key: new.persons}
